@@ -767,10 +767,33 @@ func runGetAPIs(mask int, doc []byte, pe []pathElem, pi []interface{}) []apiRes 
 // ---------------------------------------------------------------- Preorder
 
 type recVisitor struct {
-	sb    strings.Builder
-	n     int
-	numck int
-	only  bool
+	sb      strings.Builder
+	n       int
+	numck   int
+	only    bool
+	skipLvl int  // containers opened with this many containers already open (or more) answer VisitOPSkip; <0: never
+	open    int  // containers currently open (not counting skipped ones)
+	skipped bool // the last Begin callback answered VisitOPSkip
+}
+
+func (r *recVisitor) begin(tok string) error {
+	r.ev(tok)
+	if r.skipLvl >= 0 && r.open >= r.skipLvl {
+		r.skipped = true
+		return ast.VisitOPSkip
+	}
+	r.open++
+	return nil
+}
+
+func (r *recVisitor) end(tok string) error {
+	r.ev(tok)
+	if r.skipped {
+		r.skipped = false
+	} else {
+		r.open--
+	}
+	return nil
 }
 
 func (r *recVisitor) ev(s string) {
@@ -808,11 +831,11 @@ func (r *recVisitor) OnFloat64(v float64, n json.Number) error {
 	}
 	return nil
 }
-func (r *recVisitor) OnObjectBegin(capacity int) error { r.ev("{"); return nil }
+func (r *recVisitor) OnObjectBegin(capacity int) error { return r.begin("{") }
 func (r *recVisitor) OnObjectKey(key string) error      { r.ev("k" + srchHx(key)); return nil }
-func (r *recVisitor) OnObjectEnd() error                { r.ev("}"); return nil }
-func (r *recVisitor) OnArrayBegin(capacity int) error   { r.ev("["); return nil }
-func (r *recVisitor) OnArrayEnd() error                 { r.ev("]"); return nil }
+func (r *recVisitor) OnObjectEnd() error                { return r.end("}") }
+func (r *recVisitor) OnArrayBegin(capacity int) error   { return r.begin("[") }
+func (r *recVisitor) OnArrayEnd() error                 { return r.end("]") }
 
 func refEvents(dec *json.Decoder, out *[]string) bool {
 	tok, err := dec.Token()
@@ -869,11 +892,16 @@ func refEvents(dec *json.Decoder, out *[]string) bool {
 	return true
 }
 
-func runPreorder(doc string, only bool) string {
+func runPreorder(doc string, only bool) string { return runPreorderSkip(doc, only, -1) }
+
+func runPreorderSkip(doc string, only bool, skipLvl int) string {
 	return guarded(func() string {
-		rv := &recVisitor{only: only}
+		rv := &recVisitor{only: only, skipLvl: skipLvl}
 		err := ast.Preorder(doc, rv, &ast.VisitorOptions{OnlyNumber: only})
 		if err != nil {
+			if strings.Contains(err.Error(), "recursion exceeded max depth") {
+				return "depth"
+			}
 			return "err"
 		}
 		ck := "ok"
@@ -956,12 +984,230 @@ func init() {
 			} else {
 				sb.WriteString("\tref=invalid")
 			}
+			// a visitor that skips (VisitOPSkip) every container opened inside another one
+			rs := runPreorderSkip(string(doc), true, 1)
+			if i := strings.Index(rs, "\t"); i >= 0 {
+				rs = rs[:i]
+			}
+			sb.WriteString("\tskip=" + rs)
+			dec2 := json.NewDecoder(bytes.NewReader(doc))
+			dec2.UseNumber()
+			var evs2 []string
+			if refEventsSkip(dec2, &evs2, 0, 1) {
+				sb.WriteString("\trefskip=ok:" + strings.Join(evs2, ","))
+			} else {
+				sb.WriteString("\trefskip=invalid")
+			}
 			var v interface{}
 			if err := json.Unmarshal(doc, &v); err != nil {
 				sb.WriteString("\tfrange=1")
 			} else {
 				sb.WriteString("\tfrange=0")
 			}
+		}
+		sb.WriteString("\tu8=" + b01(utf8.Valid(doc)))
+		return sb.String()
+	})
+}
+
+// refEventsSkip: the event stream of a visitor that skips every container opened with at least lvl
+// containers open: Begin and End only, nothing of the content.
+func refEventsSkip(dec *json.Decoder, out *[]string, open int, lvl int) bool {
+	tok, err := dec.Token()
+	if err != nil {
+		return false
+	}
+	d, isDelim := tok.(json.Delim)
+	if !isDelim {
+		switch x := tok.(type) {
+		case nil:
+			*out = append(*out, "n")
+		case bool:
+			if x {
+				*out = append(*out, "t")
+			} else {
+				*out = append(*out, "f")
+			}
+		case json.Number:
+			*out = append(*out, "#"+string(x))
+		case string:
+			*out = append(*out, "s"+srchHx(x))
+		default:
+			return false
+		}
+		return true
+	}
+	closer := "]"
+	if d == '{' {
+		closer = "}"
+	}
+	*out = append(*out, string(rune(d)))
+	if open >= lvl {
+		// consume the container without reporting it
+		depth := 1
+		for depth > 0 {
+			t, err := dec.Token()
+			if err != nil {
+				return false
+			}
+			if dd, ok := t.(json.Delim); ok {
+				if dd == '[' || dd == '{' {
+					depth++
+				} else {
+					depth--
+				}
+			}
+		}
+		*out = append(*out, closer)
+		return true
+	}
+	for dec.More() {
+		if d == '{' {
+			kt, err := dec.Token()
+			if err != nil {
+				return false
+			}
+			*out = append(*out, "k"+srchHx(kt.(string)))
+		}
+		if !refEventsSkip(dec, out, open+1, lvl) {
+			return false
+		}
+	}
+	if _, err := dec.Token(); err != nil {
+		return false
+	}
+	*out = append(*out, closer)
+	return true
+}
+
+// ---------------------------------------------------------------- sequences of lookups on ONE node
+//
+//   c14seq <doc hex> <step;step;...>    step: g<path> (root.GetByPath)  c<path> (chain of Get/Index from root)
+//                                             L (root.LoadAll)  M (root.Interface/Map/Array)  I (iterate root to the end)  N (root.Len)
+// answers, one per step joined by "|":  ok:<ordered canon of Raw()> | nf | err:<class> | - (control step)
+
+func srchSeqAnswer(n *ast.Node) string {
+	if n == nil {
+		return "nf"
+	}
+	if err := n.Check(); err != nil {
+		return errClass(err)
+	}
+	if !n.Exists() {
+		return "nf"
+	}
+	raw, err := n.Raw()
+	if err != nil {
+		return "err:raw"
+	}
+	return "ok:" + ocanonText([]byte(raw))
+}
+
+func srchRunSeq(root *ast.Node, steps []string) string {
+	out := make([]string, 0, len(steps))
+	for _, st := range steps {
+		ans := guarded(func() string {
+			switch st[0] {
+			case 'g':
+				_, pi := parsePath(st[1:])
+				return srchSeqAnswer(root.GetByPath(pi...))
+			case 'c':
+				pe, _ := parsePath(st[1:])
+				n := root
+				for _, p := range pe {
+					if p.isKey {
+						n = n.Get(p.key)
+					} else {
+						n = n.Index(p.idx)
+					}
+					if n == nil || !n.Valid() {
+						break
+					}
+				}
+				return srchSeqAnswer(n)
+			case 'L':
+				root.LoadAll()
+			case 'M':
+				root.Interface()
+			case 'N':
+				root.Len()
+			case 'I':
+				switch root.Type() {
+				case 5:
+					if it, err := root.Values(); err == nil {
+						var v ast.Node
+						for it.Next(&v) {
+						}
+					}
+				case 6:
+					if it, err := root.Properties(); err == nil {
+						var p ast.Pair
+						for it.Next(&p) {
+						}
+					}
+				}
+			default:
+				panic("bad seq step")
+			}
+			return "-"
+		})
+		out = append(out, ans)
+	}
+	return strings.Join(out, "|")
+}
+
+func init() {
+	registerOp("c14seq", func(a []string) string {
+		doc := unhexArg(a[0])
+		sdoc := string(doc)
+		steps := strings.Split(a[1], ";")
+		var sb strings.Builder
+		roots := []struct {
+			name string
+			mk   func() (ast.Node, error)
+		}{
+			{"NR", func() (ast.Node, error) { return ast.NewRaw(sdoc), nil }},
+			{"SG", func() (ast.Node, error) { return sonic.Get(doc) }},
+			{"GS", func() (ast.Node, error) { return sonic.GetFromString(sdoc) }},
+			{"W0", func() (ast.Node, error) { return sonic.GetWithOptions(doc, ast.SearchOptions{}) }},
+			{"W5", func() (ast.Node, error) {
+				return sonic.GetWithOptions(doc, ast.SearchOptions{ValidateJSON: true, ConcurrentRead: true})
+			}},
+			{"NRC", func() (ast.Node, error) { return ast.NewRawConcurrentRead(sdoc), nil }},
+		}
+		first := ""
+		for i, r := range roots {
+			res := guarded(func() string {
+				root, err := r.mk()
+				if err != nil {
+					return "rooterr:" + errClass(err)
+				}
+				return srchRunSeq(&root, steps)
+			})
+			if i == 0 {
+				first = res
+				sb.WriteString("sonic=" + res)
+			} else if res != first {
+				sb.WriteString("\talt" + r.name + "=" + res)
+			}
+		}
+		if !json.Valid(doc) {
+			sb.WriteString("\tref=invalid")
+		} else {
+			refs := make([]string, 0, len(steps))
+			for _, st := range steps {
+				if st[0] != 'g' && st[0] != 'c' {
+					refs = append(refs, "-")
+					continue
+				}
+				pe, _ := parsePath(st[1:])
+				if raw, ok := refLocate(doc, pe); ok {
+					refs = append(refs, "ok:"+ocanonText(raw))
+				} else {
+					refs = append(refs, "nf")
+				}
+			}
+			sb.WriteString("\tref=" + strings.Join(refs, "|"))
 		}
 		sb.WriteString("\tu8=" + b01(utf8.Valid(doc)))
 		return sb.String()
